@@ -689,6 +689,8 @@ def run():
                 ck.stat("op-trace-selftest", name + (":rejected-by-replay" if v is False else ":ACCEPTED"))
                 if v is not False:
                     ck.violation("the op-trace replay accepts a corrupted trace (%s): the correspondence check is not discriminating" % name, {"program": p, "perturbation": name})
+    # programs of the replay sample whose trace could not be replayed (hook missing, trace does not parse): rq_diags the ordinary way
+    coq_vs_mirror([(p, q) for p, q in accepted if p not in mirror_done])
     ck.coverage["op_trace"] = {"programs_replayed": len(cases), "agree": trace_ok, "operations": sum(c[3] for c in cases), "programs_without_trace": nohook}
 
     # ---------------------------------------------------------------- 4. feed each accepted RQ to the SQL back end
